@@ -923,11 +923,31 @@ def run_export(ctx, fmt, idx, tmp):
                 cross += 1
                 if n.staff == n.voice:
                     ctx.extra[f"export_{fmt}_cross_staff_note_on_staff_numbered_like_its_voice"] += 1
+        wide = 0
+        if rng.random() < 0.2:
+            # a wide chord: six to eight notes with accidentals on one stem (a long cell of a kern line)
+            import partitura.score as S_
+            plain = [n for n in part.iter_all(S_.Note) if not isinstance(n, S_.GraceNote) and n.tie_prev is None and n.tie_next is None
+                     and not (n.symbolic_duration or {}).get("actual_notes")]
+            if plain:
+                base = rng.choice(plain)
+                have = {(m.step, m.octave) for m in plain if m.start.t == base.start.t}
+                for k_ in range(rng.randint(5, 7)):
+                    step, octave = rng.choice("CDEFGAB"), rng.randint(2, 6)
+                    if (step, octave) in have:
+                        continue
+                    have.add((step, octave))
+                    part.add(S_.Note(step, octave, rng.choice([1, -1, 1, None]), id=f"w{j}_{k_}", voice=base.voice, staff=base.staff,
+                                     symbolic_duration=dict(base.symbolic_duration) if base.symbolic_duration else None),
+                             base.start.t, base.end.t)
+                    wide += 1
+                ctx.extra[f"export_{fmt}_parts_with_a_wide_chord"] += 1
         path = os.path.join(tmp, f"x{idx}_{j}" + (".mei" if fmt == "mei" else ".krn"))
         small = {k: meta[k] for k in ("divs", "ts", "notes", "rests", "ties", "graces", "tuplets", "chords", "voices", "staves",
                                       "pickup", "features")}
         small["seed_path"] = ["export", fmt, idx, j]
         small["cross_staff_notes"] = cross
+        small["wide_chord_notes"] = wide
         if cross:
             ctx.extra[f"export_{fmt}_parts_with_cross_staff_notes"] += 1
         EXPECT[os.path.abspath(path)] = {"meta": small}
